@@ -21,7 +21,7 @@ def declare(S: Spec):
     S.pred("KnownOp", [("st", Ref("PipelineRuntimeStatus")), ("op", Ref("Operator"))],
            "op is not None and op.pipeline is not None and op in st.operator_states and all(p in st.operator_states for p in op.parents)")
 
-    S.fn(f"{M}:PipelineRuntimeStatus.check_transition",
+    S.fn(f"{M}:PipelineRuntimeStatus.check_transition", owners=["C01", "C02"],
          params={"operator": Ref("Operator"), "new_state": OpState},
          returns=Tuple(BOOL, Opt(STR)),
          requires=["KnownOp(self, operator)"],
@@ -30,7 +30,7 @@ def declare(S: Spec):
          loops={0: dict(idx="k", header="for parent in operator.parents",
                         inv=["all(self.operator_states[operator.parents[j]] == OperatorState.COMPLETED for j in range(0, k))"])})
 
-    S.fn(f"{M}:PipelineRuntimeStatus.transition",
+    S.fn(f"{M}:PipelineRuntimeStatus.transition", owners=["C01", "C02"],
          params={"operator": Ref("Operator"), "new_state": OpState},
          requires=["KnownOp(self, operator)", "GI1()"],
          ensures=[("admissible", "old(Admissible(self, operator, new_state))"),
